@@ -1,4 +1,6 @@
 import Oas3Model.Model.Server
+import Oas3Model.Props.C04
+import Oas3Model.Proofs.Interop
 namespace Oas3.Props.C06
 open Oas3.Server Oas3.Status Oas3.Resp
 
@@ -17,6 +19,80 @@ theorem cex_range_first_code :
     let rs := [("200".toList, [json "A"]), ("2XX".toList, [json "B"])]
     (armsOf rs).map (fun a => (a.variant, a.status)) = [("Ok".toList, 200), ("Success".toList, 200), ("Unknown".toList, 200)] ∧
     (chainOf rs).map (fun ch => (evalChain ch 200 "application/json".toList).variant) = some "Ok".toList := by
+  decide +kernel
+
+/-! ## client/server interop for exact status codes -/
+open Oas3.Gen.Status (tokens)
+open Oas3.Props.C04 (WF)
+
+/-- an exact key for `c` among the declared keys is the key the property's reference picks for `c`
+(no distinctness needed: a canonical exact key is determined by its value). -/
+theorem specKey_exact {keys : List (List Char)} {k : List Char} {c : Nat} (hk : k ∈ keys)
+    (he : exactKey k = some c) : specKey keys c = k :=
+  Oas3.Proofs.Interop.specKey_exact hk he
+
+/-- a variant declared under an exact status code is sent by the server with that code (C05) and parsed
+by the client as the same variant (C04), for well-formed single-media responses objects. -/
+theorem interop_exact (rs : List (List Char × List MediaDecl)) (hwf : WF rs)
+    (ch : Chain) (hch : chainOf rs = some ch) (v : Variant) (hv : v ∈ variantsOf rs)
+    (t : List Char) (c : Nat) (ht : v.tok = .named t) (htt : t ∈ tokens) (hc : code (.named t) = some c)
+    (hkey : ∃ k ∈ rs.map (·.1), fromStr k = v.tok ∧ exactKey k = some c) :
+    ∀ ct, (evalChain ch (httpStatus v.tok) ct).variant = v.name := by
+  intro ct
+  rw [(Oas3.Proofs.Interop.interop_exact_core rs hwf.1 hwf.2.1 hwf.2.2 ch hch v hv t c ht htt hc hkey ct).2,
+    Oas3.Proofs.Status.extractOf_variant]
+
+/-- the status on the wire is the declared code -/
+theorem interop_exact_status
+    (v : Variant) (t : List Char) (c : Nat) (ht : v.tok = .named t) (htt : t ∈ tokens)
+    (hc : code (.named t) = some c) : httpStatus v.tok = c := by
+  rw [ht]; exact Oas3.Proofs.Status.exact_status t htt c hc
+
+/-- stronger form, without table hypotheses: ANY declared canonical exact key `k` (a named table token or the
+numeric fallback `Unknown(c)`): the variant built from it is sent as `c`, and the client executes exactly
+the case built for that variant — same variant, and it reads a payload iff the server sends one. -/
+theorem interop_exact_key (rs : List (List Char × List MediaDecl)) (hwf : WF rs)
+    (ch : Chain) (hch : chainOf rs = some ch) (v : Variant) (hv : v ∈ variantsOf rs)
+    (k : List Char) (c : Nat) (hk : k ∈ rs.map (·.1)) (hkt : fromStr k = v.tok) (hke : exactKey k = some c) :
+    httpStatus v.tok = c ∧ ∀ ct, evalChain ch (httpStatus v.tok) ct = extractOf (primaryCat v.medias) v ∧
+      (evalChain ch (httpStatus v.tok) ct).variant = v.name ∧
+      (evalChain ch (httpStatus v.tok) ct).payload = v.schemaType.isSome := by
+  have hs : httpStatus v.tok = c := by rw [← hkt]; exact Oas3.Proofs.Interop.httpStatus_of_exactKey hke
+  refine ⟨hs, fun ct => ?_⟩
+  have hsk : specKey (rs.map (·.1)) c = k := specKey_exact hk hke
+  have he := Oas3.Proofs.Interop.chain_of_key rs hwf.1 hwf.2.1 hwf.2.2 ch hch v hv c
+    (by rw [hsk]; exact hk) (by rw [hsk]; exact hkt) ct
+  rw [hs, he]
+  exact ⟨rfl, Oas3.Proofs.Status.extractOf_variant _ _, Oas3.Proofs.Interop.extractOf_payload _ _⟩
+
+/-- the same, stated on the server's `IntoResponse` arms: every arm whose variant comes from a declared
+exact key round-trips (variant and payload presence). -/
+theorem interop_exact_arm (rs : List (List Char × List MediaDecl)) (hwf : WF rs)
+    (ch : Chain) (hch : chainOf rs = some ch) (a : Arm) (ha : a ∈ armsOf rs)
+    (hkey : ∀ v ∈ variantsOf rs, v.name = a.variant → ∃ k ∈ rs.map (·.1), ∃ c, fromStr k = v.tok ∧ exactKey k = some c) :
+    ∀ ct, (evalChain ch a.status ct).variant = a.variant ∧ (evalChain ch a.status ct).payload = a.json := by
+  obtain ⟨v, hv, h1, h2, h3⟩ := Oas3.Proofs.Interop.arms_spec rs a ha
+  obtain ⟨k, hk, c, hkt, hke⟩ := hkey v hv h1.symm
+  intro ct
+  have := (interop_exact_key rs hwf ch hch v hv k c hk hkt hke).2 ct
+  rw [h1, h2, h3]
+  exact ⟨this.2.1, this.2.2⟩
+
+/-- the general composition: whenever the key answering `n` is declared and carries the token of `v`, the
+client answers `n` with the case built for `v`. The two recorded defects above are exactly the situations
+where the status the SERVER picks for `v` (`httpStatus v.tok`: 200 for `default`, first code for a range)
+is answered by a different declared key. -/
+theorem chain_of_key (rs : List (List Char × List MediaDecl)) (hwf : WF rs)
+    (ch : Chain) (hch : chainOf rs = some ch) (v : Variant) (hv : v ∈ variantsOf rs) (n : Nat)
+    (hk : specKey (rs.map (·.1)) n ∈ rs.map (·.1)) (ht : fromStr (specKey (rs.map (·.1)) n) = v.tok)
+    (ct : List Char) : evalChain ch n ct = extractOf (primaryCat v.medias) v :=
+  Oas3.Proofs.Interop.chain_of_key rs hwf.1 hwf.2.1 hwf.2.2 ch hch v hv n hk ht ct
+
+/-- non-vacuity on the 4-key object of C04: both exact variants round-trip. -/
+example : (chainOf Oas3.Props.C04.rs4).map (fun ch => (armsOf Oas3.Props.C04.rs4).map fun a =>
+      (a.variant, a.status, (evalChain ch a.status "application/json".toList).variant)) =
+    some [("Ok".toList, 200, "Ok".toList), ("NotFound".toList, 404, "NotFound".toList),
+          ("ClientError".toList, 400, "ClientError".toList), ("Unknown".toList, 200, "Ok".toList)] := by
   decide +kernel
 
 end Oas3.Props.C06
